@@ -3,10 +3,9 @@
 from __future__ import annotations
 
 import ast
-import itertools
 import typing as t
 
-from sa import layout, ordertab
+from sa import layout
 from sa.cfg import build
 from sa.flow import ReachingDefs
 from sa.intervals import World
@@ -65,116 +64,6 @@ def l2_obligations(repo: Repo, chk: Check) -> None:
     chain_semantics(repo, chk, f, "O3", full=chk.tier == "thorough")
 
 
-# ------------------------------------------------------------------------- O2
-def _aliases(f: Func) -> t.Dict[str, str]:
-    """local name -> role expression it was initialised from (l1 = rk.l1)."""
-    out: t.Dict[str, str] = {}
-    for s in f.node.body:
-        if isinstance(s, ast.Assign) and len(s.targets) == 1 and isinstance(s.targets[0], ast.Name) and isinstance(s.value, ast.Attribute):
-            out.setdefault(s.targets[0].id, unparse(s.value))
-    return out
-
-
-def cover_guard(repo: Repo, chk: Check, f: Func) -> None:
-    al = _aliases(f)
-    env_l1 = [k for k, v in al.items() if v.endswith(".l1")] + [v for v in al.values() if v.endswith(".l1")]
-    env_l2 = [k for k, v in al.items() if v.endswith(".l2")] + [v for v in al.values() if v.endswith(".l2")]
-    fa = {**{n: "l1" for n in env_l1}, **{n: "l2" for n in env_l2}}
-    fb = {f.params[1]: "l1", f.params[2]: "l2"}
-    first_loop = min([n.lineno for n in body_nodes(f.node) if isinstance(n, (ast.While, ast.For))] or [10**9])
-    guards = [s for s in f.node.body if isinstance(s, ast.If) and s.lineno < first_loop and s.body and isinstance(s.body[-1], ast.Raise) and not s.orelse]
-    order_guards = []
-    for gd in guards:
-        try:
-            for vec in ordertab.vectors(["l1", "l2"]):
-                ordertab.eval_pred(gd.test, ordertab.pair_sign(fa, fb, vec))
-            order_guards.append(gd)
-        except ordertab.NotOrderPredicate:
-            continue
-    # guards between the aliasing and the loops must not be preceded by a modification of the compared names
-    site = Site.of(f, order_guards[0].test if order_guards else None, None if order_guards else "cover guard")
-    if not order_guards:
-        # arithmetic formulations are evaluated over the finite index domain instead
-        arith = [gd for gd in guards if _mentions(gd.test, set(fa)) >= 1 and _mentions(gd.test, set(fb)) >= 1 and _is_relation(gd.test, fa, fb)]
-        if arith:
-            ok, why = _finite_cover(arith, fa, fb)
-            chk.ob("O2", Site.of(f, arith[0].test), ok, why)
-            return
-        chk.ob("O2", site, False, "no guard compares the seed position with the requested position before the chain walk: an uncovered request returns a wrong key or never terminates")
-        return
-    rows = []
-    bad = []
-    for vec in ordertab.vectors(["l1", "l2"]):
-        raised = any(ordertab.eval_pred(gd.test, ordertab.pair_sign(fa, fb, vec)) for gd in order_guards)
-        uncovered = ordertab.lex_cmp(vec, ["l1", "l2"]) < 0
-        rows.append((vec["l1"], vec["l2"], raised))
-        if uncovered and not raised:
-            bad.append(f"seed with {_w(vec['l1'])} L1 / {_w(vec['l2'])} L2 than requested is not rejected")
-        if raised and not uncovered:
-            bad.append(f"seed with {_w(vec['l1'])} L1 / {_w(vec['l2'])} L2 than requested is rejected although it covers the request")
-    chk.table("cover guard truth table (sign l1, sign l2, raises)", rows)
-    chk.ob("O2", site, not bad, "raise <=> seed position <lex requested position (9 sign vectors)" if not bad else "; ".join(bad[:3]))
-
-
-def _w(s: int) -> str:
-    return {-1: "lower", 0: "equal", 1: "higher"}[s]
-
-
-def _mentions(e: ast.expr, names: t.Set[str]) -> int:
-    return len({unparse(n) for n in ast.walk(e) if isinstance(n, (ast.Name, ast.Attribute)) and unparse(n) in names})
-
-
-def _is_relation(e: ast.expr, fa: t.Dict[str, str], fb: t.Dict[str, str]) -> bool:
-    return all(isinstance(n, (ast.Compare, ast.BoolOp, ast.BinOp, ast.UnaryOp, ast.Name, ast.Attribute, ast.Constant, ast.cmpop, ast.operator, ast.boolop, ast.unaryop, ast.expr_context)) for n in ast.walk(e))
-
-
-def _finite_cover(guards: t.List[ast.If], fa: t.Dict[str, str], fb: t.Dict[str, str]) -> t.Tuple[bool, str]:
-    """Evaluate pure arithmetic relations over the whole index domain [0, 31]^4 (finite abstraction = the domain itself)."""
-    import operator as op
-
-    ops = {ast.Add: op.add, ast.Sub: op.sub, ast.Mult: op.mul, ast.FloorDiv: op.floordiv, ast.Mod: op.mod, ast.LShift: op.lshift, ast.BitOr: op.or_, ast.BitAnd: op.and_}
-    cmps = {ast.Lt: op.lt, ast.LtE: op.le, ast.Gt: op.gt, ast.GtE: op.ge, ast.Eq: op.eq, ast.NotEq: op.ne}
-
-    def ev(e: ast.expr, env: t.Dict[str, int]) -> t.Any:
-        if isinstance(e, ast.Constant):
-            return e.value
-        if isinstance(e, (ast.Name, ast.Attribute)):
-            return env[unparse(e)]
-        if isinstance(e, ast.BinOp):
-            return ops[type(e.op)](ev(e.left, env), ev(e.right, env))
-        if isinstance(e, ast.UnaryOp):
-            v = ev(e.operand, env)
-            return (not v) if isinstance(e.op, ast.Not) else (-v if isinstance(e.op, ast.USub) else v)
-        if isinstance(e, ast.BoolOp):
-            vals = [ev(v, env) for v in e.values]
-            return all(vals) if isinstance(e.op, ast.And) else any(vals)
-        if isinstance(e, ast.Compare):
-            left = ev(e.left, env)
-            for o, r in zip(e.ops, e.comparators):
-                right = ev(r, env)
-                if not cmps[type(o)](left, right):
-                    return False
-                left = right
-            return True
-        raise KeyError(unparse(e))
-
-    dom = range(32)
-    try:
-        for a1, a2, b1, b2 in itertools.product(dom, dom, dom, dom):
-            env = {}
-            for n, r in fa.items():
-                env[n] = a1 if r == "l1" else a2
-            for n, r in fb.items():
-                env[n] = b1 if r == "l1" else b2
-            raised = any(ev(gd.test, env) for gd in guards)
-            uncovered = (a1, a2) < (b1, b2)
-            if raised != uncovered:
-                return False, f"seed ({a1},{a2}) asked for ({b1},{b2}): " + ("rejected although it covers the request" if raised else "not rejected although it does not cover the request") + f" by '{unparse(guards[0].test)}'"
-    except (KeyError, ZeroDivisionError) as e:
-        return False, f"cover guard '{unparse(guards[0].test)}' is not a relation between seed and requested position ({e})"
-    return True, "raise <=> seed <lex request, checked on all 32^4 index combinations"
-
-
 # ------------------------------------------------------------------------- O3
 def _kdf_calls(f: Func) -> t.List[ast.Call]:
     from .util import source_order
@@ -207,86 +96,11 @@ def _ctx_args(c: ast.Call, f: t.Optional[Func] = None) -> t.Optional[t.List[str]
     return None
 
 
-def recipe_l2(repo: Repo, chk: Check, f: Func) -> None:
-    g = build(f.node)
-    rd = ReachingDefs(f, g)
-    calls = _kdf_calls(f)
-    from .util import source_order
-
-    pos_ = source_order(f)
-    loops = sorted([n for n in body_nodes(f.node) if isinstance(n, (ast.While, ast.For))], key=lambda n: pos_.get(id(n), 0))
-    if len(calls) != 3 or len(loops) != 2:
-        raise AnalysisError(f"compute_l2_key: expected 3 kdf calls and 2 loops, found {len(calls)} and {len(loops)}")
-    al = _aliases(f)
-    l1v = next(k for k, v in al.items() if v.endswith(".l1"))
-    l2v = next(k for k, v in al.items() if v.endswith(".l2"))
-    l1k = next(k for k, v in al.items() if v.endswith(".l1_key"))
-    l2k = next(k for k, v in al.items() if v.endswith(".l2_key"))
-    rk = f.params[3]
-    walk1, reseed, walk2 = calls
-    for c in calls:
-        chk.count("kdf sites")
-        _kdf_common(repo, chk, f, c)
-    # L1 walk
-    ok = any(x is walk1 for x in ast.walk(loops[0]))
-    chk.ob("O3", Site.of(f, walk1), ok, "first derivation is the L1 walk")
-    a = _ctx_args(walk1, f)
-    want = [f"{rk}.root_key_identifier", f"{rk}.l0", l1v, "-1"]
-    chk.ob("O3", Site.of(f, walk1, "L1 walk context"), a == want, f"context(RKID, L0, {l1v}, -1)" if a == want else f"L1 walk context is {a}, expected {want}")
-    okk = unparse(walk1.args[1]) == l1k and _assigned_to(walk1, loops[0]) == l1k
-    chk.ob("O3", Site.of(f, walk1, "L1 walk chaining"), okk, "L1 key derived from the previous L1 key" if okk else f"L1 walk derives {_assigned_to(walk1, loops[0])} from {unparse(walk1.args[1])}")
-    chk.ob("O3", Site.of(f, loops[0], "L1 walk order"), _dec_before(loops[0], l1v, walk1), "index decremented before the derivation" )
-    # reseed
-    a = _ctx_args(reseed, f)
-    want = [f"{rk}.root_key_identifier", f"{rk}.l0", l1v, l2v]
-    chk.ob("O3", Site.of(f, reseed, "reseed context"), a == want, f"context(RKID, L0, {l1v}, {l2v}=31)" if a == want else f"reseed context is {a}, expected {want}")
-    ifs = [n for n in body_nodes(f.node) if isinstance(n, ast.If) and any(x is reseed for x in ast.walk(n))]
-    set31 = bool(ifs) and any(isinstance(s, ast.Assign) and unparse(s.targets[0]) == l2v and repo.try_fold(s.value, f.mod) == (True, 31) and pos_.get(id(s), 0) < pos_.get(id(reseed), 0) for s in ifs[-1].body)
-    chk.ob("O3", Site.of(f, reseed, "reseed index"), set31, "L2 index set to 31 before reseeding" if set31 else "the reseed does not start the L2 chain at 31")
-    okk = unparse(reseed.args[1]) == l1k and _assigned_to(reseed, ifs[-1] if ifs else f.node) == l2k
-    chk.ob("O3", Site.of(f, reseed, "reseed chaining"), okk, "L2(31) derived from the L1 key" if okk else f"reseed derives {_assigned_to(reseed, f.node)} from {unparse(reseed.args[1])}")
-    # L2 walk
-    ok = any(x is walk2 for x in ast.walk(loops[1]))
-    chk.ob("O3", Site.of(f, walk2), ok, "last derivation is the L2 walk")
-    a = _ctx_args(walk2, f)
-    chk.ob("O3", Site.of(f, walk2, "L2 walk context"), a == want, f"context(RKID, L0, {l1v}, {l2v})" if a == want else f"L2 walk context is {a}, expected {want}")
-    okk = unparse(walk2.args[1]) == l2k and _assigned_to(walk2, loops[1]) == l2k
-    chk.ob("O3", Site.of(f, walk2, "L2 walk chaining"), okk, "L2 key derived from the previous L2 key" if okk else f"L2 walk derives {_assigned_to(walk2, loops[1])} from {unparse(walk2.args[1])}")
-    chk.ob("O3", Site.of(f, loops[1], "L2 walk order"), _dec_before(loops[1], l2v, walk2), "index decremented before the derivation")
-    # loop conditions compare the walked index with the requested one of the same level
-    for lp, var, req in ((loops[0], l1v, f.params[1]), (loops[1], l2v, f.params[2])):
-        if isinstance(lp, ast.While):
-            t_: ast.expr = lp.test
-            okc = isinstance(t_, ast.Compare) and len(t_.ops) == 1 and ((isinstance(t_.ops[0], ast.Gt) and unparse(t_.left) == var and unparse(t_.comparators[0]) == req) or (isinstance(t_.ops[0], ast.Lt) and unparse(t_.left) == req and unparse(t_.comparators[0]) == var))
-        else:
-            # for var in range(var - 1, req - 1, -1): visits var-1, ..., req like `while var > req: var -= 1`
-            t_ = lp.iter
-            okc = unparse(lp.target) == var and isinstance(t_, ast.Call) and unparse(t_.func) == "range" and [unparse(a) for a in t_.args] == [f"{var} - 1", f"{req} - 1", "-1"]
-        chk.ob("O3", Site.of(f, t_), okc, f"walks {var} down to {req}" if okc else f"loop '{unparse(t_)}' does not walk {var} down to {req}")
-    rets = [n for n in body_nodes(f.node) if isinstance(n, ast.Return)]
-    okr = len(rets) == 1 and unparse(rets[0].value) == l2k
-    chk.ob("O3", Site.of(f, rets[0] if rets else None, None if rets else "return"), okr, "returns the L2 key")
-    del rd
-
-
 def _assigned_to(call: ast.Call, scope: ast.AST) -> t.Optional[str]:
     for n in ast.walk(scope):
         if isinstance(n, ast.Assign) and n.value is call:
             return unparse(n.targets[0])
     return None
-
-
-def _dec_before(loop: t.Union[ast.While, ast.For], var: str, call: ast.Call) -> bool:
-    if isinstance(loop, ast.For):
-        # the loop variable already holds the decremented index in the body; it must not be changed again before the call
-        return unparse(loop.target) == var and not any(isinstance(s, (ast.AugAssign, ast.Assign)) and var in [unparse(x) for x in ([s.target] if isinstance(s, ast.AugAssign) else s.targets)] for s in loop.body)
-    dec = [s for s in loop.body if isinstance(s, ast.AugAssign) and unparse(s.target) == var and isinstance(s.op, ast.Sub) and unparse(s.value) == "1"]
-    if len(dec) != 1:
-        return False
-    # the decrement is an earlier statement of the loop body than the one containing the call
-    idx_dec = loop.body.index(dec[0])
-    idx_call = next((i for i, s in enumerate(loop.body) if any(x is call for x in ast.walk(s))), -1)
-    return 0 <= idx_dec < idx_call
 
 
 def l1_recipe(repo: Repo, chk: Check) -> None:
@@ -372,84 +186,3 @@ def kdf_wrapper(repo: Repo, chk: Check) -> None:
         chk.ob("O3", Site.of(f, der[0].node if der else None, None if der else "derive"), okd, "derives from the secret parameter and returns the result")
 
 
-# ------------------------------------------------------------------------- O4
-def conventions(repo: Repo, chk: Check, f: Func) -> None:
-    al = _aliases(f)
-    l1v = next(k for k, v in al.items() if v.endswith(".l1"))
-    l2v = next(k for k, v in al.items() if v.endswith(".l2"))
-    req1 = f.params[1]
-    rk = f.params[3]
-
-    def table(e: ast.expr) -> t.Optional[t.List[t.Tuple[bool, int, bool]]]:
-        rows = []
-        for is31 in (True, False):
-            for s in (0, 1):  # under the cover guard the seed L1 is equal or higher
-                def sign(a: ast.expr, b: ast.expr) -> t.Optional[int]:
-                    ta, tb = unparse(a), unparse(b)
-                    l1names = {l1v, f"{rk}.l1"}
-                    if ta in l1names and tb == req1:
-                        return s
-                    if tb in l1names and ta == req1:
-                        return -s
-                    l2names = {l2v, f"{rk}.l2"}
-                    if ta in l2names and tb == "31":
-                        return 0 if is31 else -1
-                    if tb in l2names and ta == "31":
-                        return 0 if is31 else 1
-                    return None
-
-                try:
-                    rows.append((is31, s, ordertab.eval_pred(e, sign)))
-                except ordertab.NotOrderPredicate:
-                    return None
-        return rows
-
-    rd = ReachingDefs(f)
-
-    def reads_envelope_position(stmt: ast.stmt, e: ast.expr) -> t.Optional[str]:
-        """Locals used in the predicate must still hold the envelope's position (only their initial alias reaches)."""
-        for n in ast.walk(e):
-            if isinstance(n, ast.Name) and n.id in al and al[n.id].rsplit(".", 1)[-1] in ("l1", "l2"):
-                ds = rd.reaching(n.id, n)
-                if not (len(ds) == 1 and ds[0].value is not None and unparse(ds[0].value) == al[n.id]):
-                    return f"'{n.id}' has already been modified when '{unparse(e)}' is evaluated: the decision must be taken on the envelope's own position ({al[n.id]})"
-        return None
-
-    # reseed flag initial value
-    # the reseed flag: the name tested by the `if` around the kdf call that is outside the two walks
-    loops_ = [n for n in body_nodes(f.node) if isinstance(n, (ast.While, ast.For))]
-    outside = [c for c in _kdf_calls(f) if not any(any(x is c for x in ast.walk(lp)) for lp in loops_)]
-    flag_ifs = [n for n in body_nodes(f.node) if isinstance(n, ast.If) and isinstance(n.test, ast.Name) and outside and any(x is outside[0] for x in ast.walk(n))]
-    flag = flag_ifs[-1].test.id if flag_ifs else "reseed_l2"  # type: ignore[attr-defined]
-    init = [s for s in f.node.body if isinstance(s, ast.Assign) and unparse(s.targets[0]) == flag]
-    ifs = [n for n in body_nodes(f.node) if isinstance(n, ast.If) and unparse(n.test) == flag]
-    if not init or not ifs:
-        # a different formulation: require that the reseed derivation is guarded by an equivalent condition
-        chk.ob("O4", Site.of(f, construct="reseed condition"), False, "the L2 reseed is not controlled by a flag initialised from the envelope position")
-    else:
-        rows = table(init[0].value)
-        site = Site.of(f, init[0])
-        stale = reads_envelope_position(init[0], init[0].value)
-        if stale:
-            chk.ob("O4", site, False, stale)
-        if rows is None:
-            chk.ob("O4", site, False, f"reseed condition '{unparse(init[0].value)}' is not a predicate of (L2 == 31, seed L1 vs requested L1)")
-        else:
-            bad = [r for r in rows if r[2] != (r[0] or r[1] != 0)]
-            chk.table("reseed truth table (l2==31, sign l1, reseed)", rows)
-            chk.ob("O4", site, not bad, "reseed <=> envelope L2 is 31 or its L1 differs from the requested L1" if not bad else "the envelope's L2 key belongs to (envelope L1, envelope L2): when the requested L1 is lower the L2 chain must be restarted from the L1 key, but with " + ", ".join(f"l2==31:{r[0]} and L1 {'higher' if r[1] else 'equal'} -> reseed={r[2]}" for r in bad) + " it is not")
-    # pre-decrement: L1 key is for L1-1 unless L2 == 31
-    pre = [s for s in f.node.body if isinstance(s, ast.If) and len(s.body) == 1 and isinstance(s.body[0], ast.AugAssign) and unparse(s.body[0].target) == l1v and isinstance(s.body[0].op, ast.Sub)]
-    site = Site.of(f, pre[0].test if pre else None, None if pre else "pre-decrement")
-    if len(pre) != 1:
-        chk.ob("O4", site, False, "the envelope convention 'L1 key is for L1-1 unless L2 == 31' is not applied before the L1 walk")
-    else:
-        rows = table(pre[0].test)
-        stale = reads_envelope_position(pre[0], pre[0].test)
-        if stale:
-            chk.ob("O4", site, False, stale)
-        if rows is None:
-            chk.ob("O4", site, False, f"pre-decrement condition '{unparse(pre[0].test)}' is not a predicate of (L2 == 31, seed L1 vs requested L1)")
-        else:
-            bad = [r for r in rows if r[2] != ((not r[0]) and r[1] != 0)]
-            chk.ob("O4", site, not bad, "pre-decrement <=> envelope L2 != 31 and its L1 differs from the requested L1" if not bad else f"pre-decrement condition disagrees with the MS-GKDI 2.2.4 convention on {bad}")
